@@ -33,6 +33,8 @@ def multiline_comment(text):
 
 KNOWN_PRED = {
     'C03-ident-leading-digit-escape': lambda kind, case, detail: case.get('family') == 'digit-start-name',
+    'C03-acid2-escaped-linebreak-in-property-name': lambda kind, case, detail: (
+        kind.startswith(('lossy', 'not-fixpoint')) and str(case.get('file', '')).endswith('sheets/acid2.css') and "'m\\nrgin'" in detail),
     'C03-multiline-comment-reindented': lambda kind, case, detail: (kind.startswith(('lossy', 'not-fixpoint', 'node-'))
                                                                   and multiline_comment(case.get('text')) and 'comment' in detail),
 }
@@ -96,15 +98,25 @@ def effect_default(sem):
 
 def roundtrip(ctx, sheet, case, what):
     from harness import sem_dom as S
+    import cssutils
     try:
         s1 = S.sem_sheet(sheet)
+        # var() references are replaced by their values when serialising (resolveVariables, on by default: the
+        # documented effect, C06's business); a sheet that uses them is compared with the references kept
+        unresolved = "('func', 'var'" in repr(s1)
+        if unresolved:
+            cssutils.ser.prefs.resolveVariables = False
         b1 = sheet.cssText
         sh2 = parse(b1)
+        if unresolved:
+            cssutils.ser.prefs.resolveVariables = False
         s2 = S.sem_sheet(sh2)
         b2 = sh2.cssText
     except Exception as e:
+        cssutils.ser.prefs.useDefaults()
         ctx.violation('raises-' + what, case, '%s: %s' % (type(e).__name__, e), KNOWN_PRED)
         return None
+    cssutils.ser.prefs.useDefaults()
     exp = effect_default(s1)
     s2 = effect_default(s2)
     if s2 != exp:
